@@ -27,6 +27,7 @@ SetOf(seq) == {seq[i] : i \in DOMAIN seq}
 ObsSt(e) == [ conn  |-> SetOf(e.st.conn),
               addr  |-> {p \in Peers : e.st.resa[p]},
               known |-> [p \in Peers |-> SetOf(e.st.known[p])],
+              edesc |-> [p \in Peers |-> [x \in REnts |-> IF x \in DOMAIN e.st.edesc[p] THEN e.st.edesc[p][x] ELSE 0]],
               feats |-> [p \in Peers |-> {x \in SetOf(e.st.feats[p]) : x.f \in RemoteNames}],
               subs  |-> SetOf(e.st.subs),
               binds |-> SetOf(e.st.binds),
@@ -55,6 +56,9 @@ NoDup(seq) == \A i, j \in DOMAIN seq : seq[i] = seq[j] => i = j
 \* observation-only requirements (functions of one trace line)
 ObsDefects(e) ==
     (IF e.panic # "" THEN {"panic"} ELSE {})
+    \* what the stack does for an input is done when the call returns (C15: the internal handlers have finished before
+    \* publication returns): nothing is written to a connection afterwards
+    \cup (IF e.late = 0 THEN {} ELSE {"late"})
     \cup (IF \A p \in Peers : NoDup(ObsOutSeq(e, p)) THEN {} ELSE {"dupout"})
     \cup (IF NoDup(e.ev) THEN {} ELSE {"dupev"})
     \cup (IF NoDup(e.cbf) THEN {} ELSE {"dupcb"})
@@ -77,7 +81,7 @@ Comp(x, c) == CASE c = "out"   -> x.out
                 [] c = "ev"    -> x.ev
                 [] c = "ret"   -> x.ret
                 [] c = "conn"  -> <<x.st.conn, x.st.addr>>
-                [] c = "known" -> <<x.st.known, x.st.feats>>
+                [] c = "known" -> <<x.st.known, x.st.feats, x.st.edesc>>
                 [] c = "subs"  -> x.st.subs
                 [] c = "binds" -> x.st.binds
                 [] c = "csub"  -> x.st.csub
